@@ -395,7 +395,12 @@ def comprehension(ex, node, fr, flavour):
     if gen.is_async:
         return async_comprehension(ex, node, fr, flavour)
     it = ex.eval(gen.iter, fr)
-    s = as_seq(ex, it)
+    if isinstance(it, SymRange):
+        if flavour != 'gen':
+            raise OutOfSubset('comprehension over a symbolic range')
+        s = Sym(K.Seq(K.Int), z3.Const('range_placeholder', z3.SeqSort(z3.IntSort())))
+    else:
+        s = as_seq(ex, it)
     if isinstance(s, list):
         return comprehension_concrete(ex, node, fr, flavour, s)
     # symbolic
@@ -442,9 +447,13 @@ def comprehension(ex, node, fr, flavour):
         def guarded():
             if guard is not None:
                 ex.run.assume(guard)
+            if isinstance(it, SymRange):
+                ex.run.assume(z3.And(x.t >= it.lo, x.t < it.hi))
             return elem_fn(x)
         eres = merge_eval(ex, guarded)
         val, rc = merged_value(ex, eres)
+        if rc is not None and isinstance(it, SymRange):
+            raise OutOfSubset('element expression over a symbolic range may raise')
         if rc is not None:
             # some element may make the element expression raise: fork into "no element does" / "one does"
             rexc = [v for pc, tag, v in eres if tag == 'raise'][0]
@@ -462,6 +471,8 @@ def comprehension(ex, node, fr, flavour):
                 body = z3.Implies(z3.substitute(guard, (x.t, s.t[i_])), body)
             ex.run.assume(P.forall([i_], z3.Implies(z3.And(i_ >= 0, i_ < z3.Length(s.t)), body), patterns=[s.t[i_]]))
     lam = Lam([x], val, guard)
+    if isinstance(it, SymRange):
+        return RangeGenView(it, lam)
     if flavour == 'gen':
         return GenView(s, lam)
     r = filter_map(ex, s, lam)
@@ -611,12 +622,17 @@ def snoc_decompositions(t, run=None):
         if z3.is_app(last) and last.decl().kind() == z3.Z3_OP_SEQ_UNIT:
             a = ch[0] if len(ch) == 2 else z3.Concat(*ch[:-1])
             out.append((a, last.arg(0)))
+        elif run is not None:
+            # A ++ r where r is known to equal r' ++ [e]:  (A ++ r') ++ [e]
+            known = run.ghost.get('_snoc', {}).get(last.sexpr())
+            if known is not None:
+                out.append((z3.Concat(*ch[:-1], known[0]), known[1]))
     elif z3.is_app(t) and t.decl().kind() == z3.Z3_OP_SEQ_UNIT:
         out.append((z3.Empty(t.sort()), t.arg(0)))
     return out
 
 
-def seq_to_dict(ex, pairs):
+def seq_to_dict(ex, pairs, _inner=False):
     """dict built from a sequence of (key, value) pairs (later pairs override)."""
     run = ex.run
     tk = pairs.kind.elem
@@ -639,11 +655,27 @@ def seq_to_dict(ex, pairs):
                                          z3.And(z3.Not(mk.optv.is_none(z3.Select(mk.arr(m.t), tk.get(pairs.t[i], 0)))),
                                                 last(pairs.t, tk.get(pairs.t[i], 0)) >= i)), patterns=[pairs.t[i]]))
     run.axiom(z3.Implies(n == 0, m.t == P.empty_map(ex, mk).t))
+    # snoc unfolding: dict(ps ++ [(k, v)]) == (d := dict(ps); d[k] = v)
+    if not _inner:
+        for (a, e) in snoc_decompositions(pairs.t, run):
+            da = run.cell(seq_to_dict(ex, Sym(pairs.kind, a), _inner=True)).sym
+            step = P.map_store(ex, da, Sym(tk.items[0], tk.get(e, 0)), Sym(tk.items[1], tk.get(e, 1)))
+            run.axiom(m.t == step.t)
     return run.alloc(HDict(sym=m))
 
 
 def any_all(ex, v, is_any):
     run = ex.run
+    if isinstance(v, RangeGenView):
+        if v.lam.value.kind != K.Bool:
+            raise OutOfSubset('any/all over non-bool generator')
+        i = z3.Int('q_i')
+        vt, g = v.lam.at(ex, i)
+        rng = z3.And(i >= v.rng.lo, i < v.rng.hi)
+        if g is not None:
+            rng = z3.And(rng, g)
+        formula = z3.Exists([i], z3.And(rng, vt)) if is_any else z3.ForAll([i], z3.Implies(rng, vt))
+        return Sym(K.Bool, name_formula(ex, formula))
     if isinstance(v, GenView):
         # all(p(x) for x in xs if g(x))  ==  forall i. 0 <= i < len(xs) and g(xs[i]) => p(xs[i])   (a pure term)
         if v.lam.value.kind != K.Bool:
@@ -758,8 +790,30 @@ def map_(ex, f, its):
     return ex.run.alloc(HList(sym=filter_map(ex, s, lam)))
 
 
+class SymRange:
+    """range(lo, hi) with symbolic bounds: only consumed by any()/all() over a generator expression"""
+
+    def __init__(self, lo, hi):
+        self.lo, self.hi = lo, hi
+
+
 def range_(ex, a):
-    raise OutOfSubset('symbolic range')
+    if len(a) == 1:
+        return SymRange(z3.IntVal(0), P.int_t(ex, a[0]))
+    if len(a) == 2:
+        return SymRange(P.int_t(ex, a[0]), P.int_t(ex, a[1]))
+    raise OutOfSubset('symbolic range with step')
+
+
+class RangeGenView:
+    """(f(i) for i in range(lo, hi) if g(i)) with symbolic bounds"""
+
+    def __init__(self, rng, lam):
+        self.rng = rng
+        self.lam = lam
+
+    def materialise(self, ex):
+        raise OutOfSubset('generator over a symbolic range used outside any()/all()')
 
 
 # =============================================================================================
